@@ -509,6 +509,25 @@ func ruleC15Table(p *Prog, r *Result) {
 	pr.some("list x list: removed map entries become {$delete: entry}", ll, "a base map entry absent from the target is emitted as {$delete: clone}", "removed map entries are no longer emitted as $delete patterns", func(pa *Path) bool {
 		return hasEffect(pa, "mapset", mOp("fresh"), mStr("$delete"), mOp("clone", mElemOf(srcP))) && guardPol(pa, "kind", mElemOf(srcP), "map") == 1
 	})
+	// one wrapper per removed entry: a {$delete: …} map made outside the loop over the base entries is one object
+	// appended again and again, and every emitted pattern is then the last one (seed C15-m)
+	pr.allIfAny("list x list: each removed entry gets a wrapper map of its own", selectPaths(ll, func(pa *Path) bool {
+		return hasEffect(pa, "mapset", mOp("fresh"), mStr("$delete"))
+	}), "the {$delete: …} map is made inside the loop that visits the removed entries", func(pa *Path) (bool, string) {
+		for _, e := range pa.Effects {
+			if e.Kind != "mapset" || len(e.Args) < 2 || !mOp("fresh")(e.Args[0]) || !mStr("$delete")(e.Args[1]) {
+				continue
+			}
+			mk, ok := e.Args[0].V.(*ssa.MakeMap)
+			if !ok {
+				continue // a literal built by a helper or another construct: not judged here
+			}
+			if loopHeaderOf(mk.Block()) == nil {
+				return false, "the map that carries $delete is made once, outside the loop, and appended for every removed entry: all emitted $delete entries are the same object and end up with the last pattern"
+			}
+		}
+		return true, ""
+	})
 	pr.all("list x list: a removed non-map entry replaces the whole list", selectPaths(ll, func(pa *Path) bool {
 		return guardPol(pa, "kind", mElemOf(srcP), "map") == -1 && pa.End == "return"
 	}), "returns target + {$replace: true}", func(pa *Path) (bool, string) {
